@@ -2,7 +2,7 @@
    Print Assumptions.  The driver parses this file's output. *)
 From ZV.Common Require Import Base.
 From ZV.C02 Require Import Model ModelRec RunCase ProofsBits ProofsMatch ProofsSeq ProofsFrame ProofsRec.
-From ZV.C02 Require Import ModelComp RunCaseX ProofsComp ProofsHuffC.
+From ZV.C02 Require Import ModelComp RunCaseX ProofsComp ProofsHuffC ModelFront ProofsFront.
 From ZV.C01 Require ProofsHeap.
 From Coq Require Import Permutation.
 Open Scope N_scope.
@@ -280,6 +280,117 @@ Check huffman_size_u16_refuted :
               huffc_decompress (fun t => t) (huff_new_from (fun t => t) ht_a) z <> Some x.
 Print Assumptions huffman_size_u16_refuted.
 
+(* ---------------------------------------------------------------------------------------------
+   Front ends as decision automata (ModelFront.v): the clock readings and the cost model are inputs
+   --------------------------------------------------------------------------------------------- *)
+(* RealtimeCompressor: every mode, every current algorithm (any set_mode history), fallback on or off, every clock reading
+   (deadline passed on entry / after the permit / tokio timeout / on time), compress and compress_with_deadline alike:
+   a block that is returned decodes to the payload, given the round-trip law of every component codec *)
+Theorem realtime_block_roundtrip :
+  forall codec_of, (forall a, codec_ok (codec_of a)) ->
+  forall st data ck z,
+    rt_compress_with_deadline codec_of st data ck = Some z -> rt_decompress codec_of st z = Some data.
+Proof. exact realtime_block_roundtrip_proof. Qed.
+Check realtime_block_roundtrip :
+  forall codec_of, (forall a, codec_ok (codec_of a)) ->
+  forall st data ck z,
+    rt_compress_with_deadline codec_of st data ck = Some z -> rt_decompress codec_of st z = Some data.
+Print Assumptions realtime_block_roundtrip.
+
+(* the tag written is the tag of the codec that produced the bytes: STORED with the payload itself (missed deadline, small
+   block in ultra-low-latency configuration), COMPRESSED with the output of the current algorithm *)
+Theorem realtime_tag_names_producer :
+  forall codec_of st data ck z,
+    rt_compress_with_deadline codec_of st data ck = Some z ->
+    exists body, z = tag_of (rt_producer st data ck) :: body /\
+      match rt_producer st data ck with
+      | PStored => body = data
+      | PCodec a => a = rt_alg st /\ c_compress (codec_of a) data = Some body
+      end.
+Proof. exact rt_block_producer. Qed.
+Check realtime_tag_names_producer :
+  forall codec_of st data ck z,
+    rt_compress_with_deadline codec_of st data ck = Some z ->
+    exists body, z = tag_of (rt_producer st data ck) :: body /\
+      match rt_producer st data ck with
+      | PStored => body = data
+      | PCodec a => a = rt_alg st /\ c_compress (codec_of a) data = Some body
+      end.
+Print Assumptions realtime_tag_names_producer.
+
+(* compress_batch: whatever it returns - it stops when the batch deadline passes - block j decodes to item j *)
+Theorem realtime_batch_roundtrip :
+  forall codec_of, (forall a, codec_ok (codec_of a)) ->
+  forall st items cks zs,
+    rt_compress_batch codec_of st items cks = Some zs ->
+    (length zs <= length items)%nat /\
+    forall j z, nth_error zs j = Some z -> exists it, nth_error items j = Some it /\ rt_decompress codec_of st z = Some it.
+Proof. exact realtime_batch_roundtrip_proof. Qed.
+Check realtime_batch_roundtrip :
+  forall codec_of, (forall a, codec_ok (codec_of a)) ->
+  forall st items cks zs,
+    rt_compress_batch codec_of st items cks = Some zs ->
+    (length zs <= length items)%nat /\
+    forall j z, nth_error zs j = Some z -> exists it, nth_error items j = Some it /\ rt_decompress codec_of st z = Some it.
+Print Assumptions realtime_batch_roundtrip.
+
+(* AdaptiveCompressor: after any history of set_algorithm / train / compress / decompress, whatever the cost model picked
+   (and even if maybe_adapt performed the switch it only logs today: `switching`), the next compress never panics, fails
+   only when the current codec refuses the payload, and returns a block the compressor then decodes to the payload *)
+Theorem adaptive_roundtrip :
+  forall codec_of, (forall a, codec_ok (codec_of a)) ->
+  forall creatable switching cfg ops st data pick improves,
+    ad_run codec_of creatable true switching cfg ad_new ops = Some st ->
+    match ad_compress codec_of creatable true switching cfg st data pick improves with
+    | AdOk z st' => ad_decompress codec_of st' z = Some data
+    | AdErr _ => c_compress (codec_of (ad_alg st)) data = None \/ switching = true
+    | AdPanic => False
+    end.
+Proof. exact adaptive_roundtrip_proof. Qed.
+Check adaptive_roundtrip :
+  forall codec_of, (forall a, codec_ok (codec_of a)) ->
+  forall creatable switching cfg ops st data pick improves,
+    ad_run codec_of creatable true switching cfg ad_new ops = Some st ->
+    match ad_compress codec_of creatable true switching cfg st data pick improves with
+    | AdOk z st' => ad_decompress codec_of st' z = Some data
+    | AdErr _ => c_compress (codec_of (ad_alg st)) data = None \/ switching = true
+    | AdPanic => False
+    end.
+Print Assumptions adaptive_roundtrip.
+
+(* ... and no history panics or gets stuck *)
+Theorem adaptive_history_total :
+  forall codec_of creatable switching cfg ops st, exists st', ad_run codec_of creatable true switching cfg st ops = Some st'.
+Proof. exact ad_run_total. Qed.
+Check adaptive_history_total :
+  forall codec_of creatable switching cfg ops st, exists st', ad_run codec_of creatable true switching cfg st ops = Some st'.
+Print Assumptions adaptive_history_total.
+
+(* before the fix: evaluation_interval = 0 made the first compress at or past min_operations panic *)
+Theorem adaptive_zero_interval_refuted :
+  exists cfg data, forall codec_of creatable pick improves,
+    ad_compress codec_of creatable false false cfg ad_new data pick improves = AdPanic.
+Proof. exact adaptive_zero_interval_refuted_proof. Qed.
+Check adaptive_zero_interval_refuted :
+  exists cfg data, forall codec_of creatable pick improves,
+    ad_compress codec_of creatable false false cfg ad_new data pick improves = AdPanic.
+Print Assumptions adaptive_zero_interval_refuted.
+
+(* the limit of the one-byte tag: it says "compressed", not by which algorithm - a block written before set_mode /
+   set_algorithm is handed to the new decoder *)
+Theorem realtime_stale_block_limit :
+  exists st data z mode, (forall a, codec_ok (two_codecs a)) /\
+    rt_compress_with_deadline two_codecs st data on_time = Some z /\
+    rt_decompress two_codecs st z = Some data /\
+    rt_decompress two_codecs (rt_set_mode st mode) z <> Some data.
+Proof. exact realtime_stale_block_proof. Qed.
+Check realtime_stale_block_limit :
+  exists st data z mode, (forall a, codec_ok (two_codecs a)) /\
+    rt_compress_with_deadline two_codecs st data on_time = Some z /\
+    rt_decompress two_codecs st z = Some data /\
+    rt_decompress two_codecs (rt_set_mode st mode) z <> Some data.
+Print Assumptions realtime_stale_block_limit.
+
 (* non-vacuity of the hypotheses above *)
 Example legacy_stream_inhabited :
   let x := [7; 7; 7; 7; 9; 7; 9; 7; 9; 116; 104; 101] in
@@ -315,3 +426,14 @@ Example huffman_tree_serialize_inhabited :
   let tb := [(99, [false]); (97, [true; false]); (98, [true; true])] in
   NoDup (map fst tb) /\ H.prefix_free tb = true /\ short_codes tb.
 Proof. cbn zeta. split; [repeat constructor; cbn; intuition; discriminate|]. split; [reflexivity|]. repeat constructor; cbn; lia. Qed.
+Example realtime_block_roundtrip_inhabited :
+  (forall a, codec_ok (two_codecs a)) /\
+  rt_compress_with_deadline two_codecs (rt_set_mode (rt_new 0 true) 2) (repeat 7 (N.to_nat 70)) on_time = Some (1 :: 42 :: repeat 7 (N.to_nat 70)) /\
+  rt_compress_with_deadline two_codecs (rt_set_mode (rt_new 0 true) 2) [7; 7] on_time = Some [0; 7; 7] /\
+  rt_compress_with_deadline two_codecs (rt_new 3 true) [7; 7] (mkClock false false true) = Some [0; 7; 7] /\
+  rt_compress_with_deadline two_codecs (rt_new 3 false) [7; 7] (mkClock true false false) = None.
+Proof. split; [exact two_codecs_ok|]. repeat split; reflexivity. Qed.
+Example adaptive_roundtrip_inhabited :
+  exists st, ad_run two_codecs (fun a => a <? 50) true false (mkAdCfg 1 1 true 16) ad_new
+               [OpSet 2; OpCompress [1] 0 true; OpSet 50; OpTrain; OpCompress [2] 3 false] = Some st /\ ad_alg st = 2 /\ ad_done st = 2.
+Proof. eexists. split; [reflexivity|]. split; reflexivity. Qed.
